@@ -1,8 +1,17 @@
 import Aiorpcx.C15.Steps
-/-! C15: order.  The wire followed by the waiting list is always a sub-sequence of the messages in
-the order in which they were handed to a send (`used`): blocked senders are woken first-in
-first-out, a sender that has to wait again goes behind nobody who came after it, and nobody
-overtakes a waiting sender (a send that finds `_can_send` set finds nobody waiting). -/
+/-! C15: order.
+
+(1) As long as every event is followed by running the loop to idle (no `batch` event), the wire
+followed by the waiting list is a sub-sequence of the messages in the order in which they were
+handed to a send (`used`): blocked senders are woken first-in first-out, a sender that has to wait
+again goes behind nobody who came after it, and nobody overtakes a waiting sender (a send that
+finds `_can_send` set finds nobody waiting) - `oinv_run`.
+
+(2) That is NOT so in general, and the property text does not ask for it: a sender that is
+already runnable when `resume_writing()` sets the event runs before the writers the event woke
+(`batch [send, resume]`) and its message goes out first.  What the text asks - "messages one task
+sends one after another keep their order" - holds for every event sequence: a message whose send
+has completed is never behind a message that is sent later (`task_order_aux`). -/
 namespace Aiorpcx.C15
 
 def OInv (t : T) : Prop := (t.wire ++ msgs t.blocked).Sublist t.used
@@ -49,9 +58,15 @@ theorem oinv_cleared (t t' : T) (h : OInv t) (hw : t'.wire = t.wire) (hb : t'.bl
   refine List.Sublist.trans ?_ h
   simp [msgs]
 
-theorem oinv_step (t : T) (e : Event) (hfix : t.fixed = true) (hf : FInv t) (h : OInv t) :
-    OInv (step t e).1 := by
+/-- the event is followed by running the loop to idle before anything else happens -/
+def Event.simple : Event → Bool
+  | .batch _ _ => false
+  | _ => true
+
+theorem oinv_step (t : T) (e : Event) (hs : e.simple = true) (hfix : t.fixed = true) (hf : FInv t)
+    (h : OInv t) : OInv (step t e).1 := by
   cases e with
+  | batch acts flags => cases hs
   | send s m flags =>
     unfold step
     simp only []
@@ -136,19 +151,21 @@ theorem oinv_step (t : T) (e : Event) (hfix : t.fixed = true) (hf : FInv t) (h :
       · obtain ⟨_, _, _, _, e, f, g⟩ := connectionLost_frame t
         exact oinv_cleared t _ h f g e
 
-theorem oinv_run (es : List Event) : ∀ (t : T), t.fixed = true → FInv t → OInv t →
-    OInv (run t es).1 := by
+theorem oinv_run (es : List Event) : ∀ (t : T), (∀ e ∈ es, e.simple = true) → t.fixed = true →
+    FInv t → OInv t → OInv (run t es).1 := by
   induction es with
-  | nil => intro t _ _ h; exact h
+  | nil => intro t _ _ _ h; exact h
   | cons e es ih =>
-    intro t hfix hf h
+    intro t hs hfix hf h
     simp only [run]
-    exact ih _ (by rw [fixed_step]; exact hfix) (finv_step t e hfix hf) (oinv_step t e hfix hf h)
+    exact ih _ (fun x hx => hs x (by simp [hx])) (by rw [fixed_step]; exact hfix)
+      (finv_step t e hfix hf) (oinv_step t e (hs e (by simp)) hfix hf h)
 
 /-- `used` never repeats a message id: a send with an id that was used before is rejected -/
-theorem used_step (t : T) (e : Event) :
+theorem used_step (t : T) (e : Event) (hs : e.simple = true) :
     (step t e).1.used = t.used ∨ ∃ m, m ∉ t.used ∧ (step t e).1.used = t.used ++ [m] := by
   cases e with
+  | batch acts flags => cases hs
   | send s m flags =>
     unfold step
     simp only []
@@ -185,17 +202,152 @@ theorem used_step (t : T) (e : Event) :
       · exact Or.inl rfl
       · exact Or.inl (connectionLost_frame t).2.2.2.2.1
 
+theorem used_nodup_syncAct (t : T) (q : List Writer) (a : Act) (h : t.used.Nodup) :
+    (t.syncAct q a).1.used.Nodup := by
+  cases a with
+  | send s m =>
+    simp only [T.syncAct]
+    split
+    · exact h
+    · rename_i hnew
+      have hnew' : m ∉ t.used := by simpa using hnew
+      simp only [T.use]
+      rw [List.nodup_append]
+      refine ⟨h, by simp, ?_⟩
+      intro a ha b hb hab; simp at hb; subst hb; subst hab; exact hnew' ha
+  | pause => simp only [T.syncAct]; rw [(pause_frame t).2.2.1]; exact h
+  | resume =>
+    simp only [T.syncAct]
+    split
+    · exact h
+    · split <;> exact h
+
+theorem used_nodup_sync (acts : List Act) : ∀ (t : T) (q : List Writer), t.used.Nodup →
+    (t.sync q acts).1.used.Nodup := by
+  induction acts with
+  | nil => intro t q h; exact h
+  | cons a as ih => intro t q h; simp only [T.sync]; exact ih _ _ (used_nodup_syncAct t q a h)
+
+theorem used_nodup_step (t : T) (e : Event) (h : t.used.Nodup) : (step t e).1.used.Nodup := by
+  by_cases hs : e.simple = true
+  · rcases used_step t e hs with h1 | ⟨m, hm, h1⟩
+    · rw [h1]; exact h
+    · rw [h1, List.nodup_append]
+      refine ⟨h, by simp, ?_⟩
+      intro a ha b hb hab; simp at hb; subst hb; subst hab; exact hm ha
+  · cases e with
+    | batch acts flags =>
+      unfold step
+      simp only []
+      rw [(wakeAll_frame _ _ _).2.2.2.2]
+      exact used_nodup_sync acts t [] h
+    | _ => simp [Event.simple] at hs
+
 theorem used_nodup_run (es : List Event) : ∀ (t : T), t.used.Nodup → (run t es).1.used.Nodup := by
   induction es with
   | nil => intro t h; exact h
   | cons e es ih =>
     intro t h
     simp only [run]
-    apply ih
-    rcases used_step t e with h1 | ⟨m, hm, h1⟩
-    · rw [h1]; exact h
-    · rw [h1, List.nodup_append]
-      refine ⟨h, by simp, ?_⟩
-      intro a ha b hb hab; simp at hb; subst hb; subst hab; exact hm ha
+    exact ih _ (used_nodup_step t e h)
+
+/-! ## The wire only grows at its end -/
+
+theorem wakeAll_wire_prefix (ws : List Writer) : ∀ (t : T) (flags : List Bool),
+    t.wire <+: (t.wakeAll ws flags).1.wire := by
+  induction ws with
+  | nil => intro t flags; exact List.prefix_refl _
+  | cons w ws ih =>
+    intro t flags
+    unfold T.wakeAll
+    split
+    · exact ih { t with blocked := t.blocked ++ [w] } flags
+    · simp only []
+      refine List.IsPrefix.trans ?_ (ih _ _)
+      rw [(doWrite_frame t w.msg (headFlag flags).1).1]
+      split
+      · exact List.prefix_refl _
+      · exact List.prefix_append _ _
+
+theorem step_wire_prefix (t : T) (e : Event) : t.wire <+: (step t e).1.wire := by
+  cases e with
+  | send s m flags =>
+    unfold step
+    simp only []
+    split
+    · exact List.prefix_refl _
+    · split
+      · rw [(doWrite_frame (t.use m) m (headFlag flags).1).1]
+        have e1 : (t.use m).wire = t.wire := rfl
+        rw [e1]
+        split
+        · exact List.prefix_refl _
+        · exact List.prefix_append _ _
+      · exact List.prefix_refl _
+  | pause => unfold step; rw [(pause_frame t).1]; exact List.prefix_refl _
+  | resume flags =>
+    unfold step
+    simp only []
+    split
+    · exact List.prefix_refl _
+    · split
+      · exact List.prefix_refl _
+      · exact wakeAll_wire_prefix t.blocked t.resumed flags
+  | lost =>
+    unfold step
+    simp only []
+    split
+    · exact List.prefix_refl _
+    · rw [(connectionLost_frame t).2.2.2.2.2.1]; exact List.prefix_refl _
+  | advance dt => unfold step; rw [(fire_frame t _).2.2.1]; exact List.prefix_refl _
+  | cancel m => rw [(cancel_others_unaffected t m).1]; exact List.prefix_refl _
+  | gclose pending =>
+    unfold step
+    simp only []
+    split
+    · exact List.prefix_refl _
+    · split
+      · exact List.prefix_refl _
+      · rw [(connectionLost_frame t).2.2.2.2.2.1]; exact List.prefix_refl _
+  | batch acts flags =>
+    unfold step
+    simp only []
+    have := wakeAll_wire_prefix (t.sync [] acts).2.1 (t.sync [] acts).1 flags
+    rw [(sync_frame acts t []).2.2.2.2.1] at this
+    exact this
+
+theorem run_wire_prefix (es : List Event) : ∀ (t : T), t.wire <+: (run t es).1.wire := by
+  induction es with
+  | nil => intro t; exact List.prefix_refl _
+  | cons e es ih =>
+    intro t
+    simp only [run]
+    exact List.IsPrefix.trans (step_wire_prefix t e) (ih _)
+
+/-- **Per-task order**, for every event sequence (batches included): if message `a` has been
+handed to a send and that send is over (`a` is not waiting any more - it was written, or its
+sender timed out / was cancelled / the connection went away) and `b` has not been sent yet, then
+`b` never gets onto the wire in front of `a`. -/
+theorem task_order_aux (t : T) (es : List Event) (a b : Nat) (hm : MInv t)
+    (ha : a ∈ t.used) (hdone : a ∉ msgs t.blocked) (hb : b ∉ t.used) :
+    ¬ [b, a].Sublist (run t es).1.wire := by
+  intro hs
+  have hnd := (minv_run es t hm).wireNodup
+  obtain ⟨ext, hext⟩ := run_wire_prefix es t
+  by_cases haw : a ∈ t.wire
+  · rw [← hext] at hs hnd
+    obtain ⟨l₁, l₂, heq, h1, h2⟩ := List.sublist_append_iff.mp hs
+    cases l₁ with
+    | nil =>
+      simp only [List.nil_append] at heq
+      subst heq
+      have hae : a ∈ ext := h2.subset (by simp)
+      exact (List.nodup_append.mp hnd).2.2 a haw a hae rfl
+    | cons x xs =>
+      simp only [List.cons_append, List.cons.injEq] at heq
+      have hbw : b ∈ t.wire := h1.subset (by rw [← heq.1]; simp)
+      exact hb (hm.wireUsed b hbw)
+  · have hd : Dead a t := ⟨ha, haw, hdone⟩
+    exact (dead_run a es t hd).2.1 (hs.subset (by simp))
 
 end Aiorpcx.C15
